@@ -133,7 +133,9 @@ Theorem c14_family_throw_inventory :
   map (fun x => fst (fst x)) TV.gen.ApiGuards.family_throw_sites =
   ["tsgAcceleratedDataStructures.hpp"; "tsgAcceleratedDataStructures.hpp"; "tsgAcceleratedDataStructures.hpp";
    "tsgAcceleratedDataStructures.hpp"; "tsgCoreOneDimensional.cpp"; "tsgCoreOneDimensional.cpp"; "tsgCoreOneDimensional.cpp";
-   "tsgCoreOneDimensional.hpp"; "tsgGridLocalPolynomial.cpp"; "tsgGridWavelet.cpp"; "tsgLinearSolvers.cpp";
+   "tsgCoreOneDimensional.hpp"; "tsgGridLocalPolynomial.cpp"; "tsgGridWavelet.cpp";
+   "tsgIOHelpers.hpp"; "tsgIOHelpers.hpp"; "tsgIOHelpers.hpp";   (* binary readers: truncated stream (read paths only, never a const query) *)
+   "tsgLinearSolvers.cpp";
    "tsgLinearSolvers.cpp"; "tsgLinearSolvers.cpp"; "tsgLinearSolvers.cpp"; "tsgOneDimensionalWrapper.hpp";
    "tsgOneDimensionalWrapper.hpp"].
 Proof. exact family_throw_inventory. Qed.
